@@ -1,0 +1,9 @@
+//go:build !verif
+
+// Package verifhook provides schedule points for the external verification
+// harness. Without the "verif" build tag every function here is an empty,
+// inlinable no-op.
+package verifhook
+
+// Point marks a schedule point. It does nothing unless built with -tags verif.
+func Point(name string) {}
